@@ -130,6 +130,10 @@ type plCfg struct {
 	// monitors and the per-query case terms state the property for the rule
 	// set in force.
 	Lists []*plList
+
+	// round 4 (C02 registry mode): the DHCP side of the client storage (the
+	// MAC of an address' lease); nil = client.EmptyDHCP.
+	ClientDHCP client.DHCP
 }
 
 // plList is a rule list of the lists mode.
@@ -513,6 +517,10 @@ type plServer struct {
 	// number of changes it was built after.
 	ref   *plServer
 	refAt int
+	// storage is the client storage whose ApplyClientFiltering the filter
+	// was configured with (round 4, C02 registry mode: clients are added,
+	// updated and removed while the server runs).
+	storage *client.Storage
 }
 
 // listsClasses: where in a history of list changes the query about to be run sits.
@@ -763,9 +771,13 @@ func plNewServer(t *testing.T, c *plCfg) *plServer {
 		}
 		initial = append(initial, p)
 	}
+	var cliDHCP client.DHCP = client.EmptyDHCP{}
+	if c.ClientDHCP != nil {
+		cliDHCP = c.ClientDHCP
+	}
 	storage, err := client.NewStorage(context.Background(), &client.StorageConfig{
 		Logger:         slogutil.NewDiscardLogger(),
-		DHCP:           client.EmptyDHCP{},
+		DHCP:           cliDHCP,
 		ARPDB:          arpdb.Empty{},
 		InitialClients: initial,
 	})
@@ -933,7 +945,7 @@ func plNewServer(t *testing.T, c *plCfg) *plServer {
 		s.dns64Pref = plDNS64Prefix
 	}
 
-	ps := &plServer{s: s, ups: ups, ql: ql, cfg: c, ss: ss, handlers: handlers}
+	ps := &plServer{s: s, ups: ups, ql: ql, cfg: c, ss: ss, handlers: handlers, storage: storage}
 	if c.Lists != nil {
 		// the lists' source; every list is added through the web API (which
 		// downloads it and queues an engine initialisation), the way an
@@ -1123,6 +1135,10 @@ type plQuery struct {
 	// is a random answer).  Sound for the comparison: a name the model asks
 	// and the server did not already differs in the compared call list.
 	PrintAskedOnly bool
+	// Prep, when set, is called with the request context right before the
+	// request is handled (round 4, C02 registry mode: the transport, the
+	// connection carrying a ClientID and the real HandleBefore).
+	Prep func(pctx *proxy.DNSContext)
 }
 
 type plObs struct {
@@ -1174,6 +1190,9 @@ func (ps *plServer) run(q *plQuery) (o plObs) {
 		IsPrivateClient: q.Private, RequestedPrivateRDNS: q.RDNS}
 	func() {
 		defer func() { o.Panic = recover() }()
+		if q.Prep != nil {
+			q.Prep(pctx)
+		}
 		o.Err = ps.s.handleDNSRequest(nil, pctx)
 	}()
 	o.Res = pctx.Res
